@@ -1,9 +1,49 @@
 import JominiModel.Driver.Util
+import JominiModel.Driver.C15
+import JominiModel.Model.Writer
+/-
+ops of property C14:
+  wtape <indent_char> <indent_factor> <input hex> <tape> [rt]
+    -> output hex of `writeTape` over `<tape>` (harness/src/show.rs `text_tape` format);
+       `err:parse` when `<tape>` is `err` (the input did not parse on the implementation side)
+-/
 namespace Jomini.Driver.C14
-open Jomini Jomini.Driver
+open Jomini Jomini.Driver Jomini.Writer
 
-/-- ops of property C14 (none yet). -/
+/-- `A<end>` `Am<end>` `O<end>` `Om<end>` `E<idx>` `M` -/
+def parseStructTok (s : String) : Option Tok :=
+  match s.toList with
+  | ['M'] => some .mixedContainer
+  | 'A' :: 'm' :: rest => (String.ofList rest).toNat?.map fun e => .array e true
+  | 'A' :: rest => (String.ofList rest).toNat?.map fun e => .array e false
+  | 'O' :: 'm' :: rest => (String.ofList rest).toNat?.map fun e => .object e true
+  | 'O' :: rest => (String.ofList rest).toNat?.map fun e => .object e false
+  | 'E' :: rest => (String.ofList rest).toNat?.map .end
+  | _ => none
+
+def parseTok (s : String) : Option Tok :=
+  match s.splitOn ":" with
+  | ["U", h] => (parseHex h).map .unquoted
+  | ["Q", h] => (parseHex h).map .quoted
+  | ["P", h] => (parseHex h).map .parameter
+  | ["N", h] => (parseHex h).map .undefinedParameter
+  | ["H", h] => (parseHex h).map .header
+  | ["Op", o] => (C15.parseOp o).map .operator
+  | [t] => parseStructTok t
+  | _ => none
+
+def parseTape (s : String) : Option (List Tok) :=
+  if s == "-" then some [] else (s.splitOn ",").mapM parseTok
+
 def handle : Handler
+  | "wtape" :: c :: f :: _ :: tape :: _ => do
+    let ic ← c.toNat?
+    let fac ← f.toNat?
+    if tape == "err" then pure "err:parse" else
+    let toks ← parseTape tape
+    match writeTape toks (State.init (UInt8.ofNat ic) fac) with
+    | .ok s => pure (toHex s.out)
+    | .error e => pure (C15.errStr e)
   | _ => none
 
 end Jomini.Driver.C14
